@@ -520,6 +520,9 @@ pub struct World {
     pub max_trace: usize,
     /// id of the datagram currently being delivered
     pub cur_rx_id: i64,
+    /// encoded transport parameters each side presented (tapped at the crypto provider)
+    pub tp_server: Arc<Mutex<Vec<Vec<u8>>>>,
+    pub tp_client: Arc<Mutex<Vec<Vec<u8>>>>,
     /// connection IDs each endpoint has issued on the wire (handshake SCIDs, NEW_CONNECTION_ID)
     pub issued: Vec<Vec<Vec<u8>>>,
     pub client_tcfg: Arc<TransportConfig>,
@@ -632,9 +635,18 @@ impl World {
             Arc::new(e)
         };
 
+        let tp_server: Arc<Mutex<Vec<Vec<u8>>>> = Arc::new(Mutex::new(Vec::new()));
+        let tp_client: Arc<Mutex<Vec<Vec<u8>>>> = Arc::new(Mutex::new(Vec::new()));
         let mut server_crypto = ToyServerConfig::new(seed);
         server_crypto.sf_size = cfg.sf_size;
         server_crypto.accept_early = cfg.accept_early;
+        {
+            let tap = tp_server.clone();
+            server_crypto.param_hook = Some(Arc::new(move |b: Vec<u8>| {
+                tap.lock().unwrap().push(b.clone());
+                b
+            }));
+        }
         let server_crypto = Arc::new(server_crypto);
         let mut scfg = ServerConfig::new(
             server_crypto.clone(),
@@ -685,6 +697,13 @@ impl World {
             });
             let mut cc = ToyClientConfig::new(seed ^ ((i as u64 + 1) << 32));
             cc.ch_size = cfg.ch_size;
+            {
+                let tap = tp_client.clone();
+                cc.param_hook = Some(Arc::new(move |b: Vec<u8>| {
+                    tap.lock().unwrap().push(b.clone());
+                    b
+                }));
+            }
             client_cfgs.push(Arc::new(cc));
         }
         let fates_c2s = cfg.fates_c2s.iter().map(|s| parse_fate(s)).collect();
@@ -712,8 +731,10 @@ impl World {
             keep_history: false,
             mitm: None,
             probe_level: 1,
-            max_trace: 60_000,
+            max_trace: 25_000,
             cur_rx_id: -1,
+            tp_server,
+            tp_client,
             issued: Vec::new(),
             client_tcfg,
             token_store: None,
@@ -820,6 +841,14 @@ impl World {
                 let post = self.probe(n, ch.0);
                 self.trace
                     .push(json!({"ev":"Connect","t":t,"n":n,"c":ch.0,"ok":true,"post":post}));
+                if let Some(b) = self.tp_client.lock().unwrap().last() {
+                    let mut v = tp_json(b);
+                    v["ev"] = json!("TP");
+                    v["n"] = json!(n);
+                    v["c"] = json!(ch.0);
+                    v["t"] = json!(t);
+                    self.trace.push(v);
+                }
                 Some(ch.0)
             }
             Err(e) => {
@@ -1346,7 +1375,15 @@ impl World {
                 let p = self.probe(n, ch.0);
                 let fr = frame_rx_vec(&self.nodes[n].conns[&ch.0].conn.stats().frame_rx);
                 self.trace.push(json!({"ev":"Accept","t":t,"n":n,"c":ch.0,"ok":true,"post":p,
-                    "dfr":fr.to_vec()}));
+                    "dfr":fr.to_vec(),"peer":peer}));
+                if let Some(b) = self.tp_server.lock().unwrap().last() {
+                    let mut v = tp_json(b);
+                    v["ev"] = json!("TP");
+                    v["n"] = json!(n);
+                    v["c"] = json!(ch.0);
+                    v["t"] = json!(t);
+                    self.trace.push(v);
+                }
                 self.after_input(n, ch.0);
             }
             Some(Err(e)) => {
@@ -1604,6 +1641,37 @@ impl World {
         self.trace.push(json!({"ev":"End","t":t,"steps":self.steps,"eps":eps,"conns":lost,
             "panicked":self.panicked,"net":self.net.len()}));
     }
+}
+
+/// Independent TLV decode of the integer transport parameters (RFC 9000 section 18)
+pub fn tp_json(b: &[u8]) -> Value {
+    let mut r = wire::Rd::new(b);
+    let mut v = json!({"md":0,"sdbl":0,"sdbr":0,"sduni":0,"msb":0,"msu":0,"idle":0,"udp":65527,
+        "dgram":-1,"acid":2,"mad":25,"minad":-1});
+    while r.left() > 0 {
+        let Some(id) = r.var() else { break };
+        let Some(len) = r.var() else { break };
+        let Some(body) = r.take(len as usize) else { break };
+        let mut br = wire::Rd::new(body);
+        let val = br.var().unwrap_or(0).min(1 << 30);
+        let key = match id {
+            0x01 => "idle",
+            0x03 => "udp",
+            0x04 => "md",
+            0x05 => "sdbl",
+            0x06 => "sdbr",
+            0x07 => "sduni",
+            0x08 => "msb",
+            0x09 => "msu",
+            0x0b => "mad",
+            0x0e => "acid",
+            0x20 => "dgram",
+            0xff04de1b => "minad",
+            _ => continue,
+        };
+        v[key] = json!(val);
+    }
+    v
 }
 
 pub fn fate_str(f: &Fate) -> String {
